@@ -123,13 +123,13 @@ def consumer(name, e, path, w_lo, depth):
         if depth == 1:
             r = core.out(core.mod('isbn').split, luhn_free_ean13((w_lo + '0' * 12)[:12]))
             return None if r[0] == 'ok' and r[1][1] == lo else ('consumer:isbn.split-group', r)
-        if depth == 2:
+        if depth >= 2:
             body = (w_lo + '0' * 12)[:12]
             if len(w_lo) >= 12:
                 return ('consumer:isbn-no-room-for-item', w_lo)
             w = luhn_free_ean13(body)
             r = core.out(core.mod('isbn').split, w)
-            good = r[0] == 'ok' and len(r[1]) == 5 and all(r[1]) and ''.join(r[1]) == w and r[1][2] == lo
+            good = r[0] == 'ok' and len(r[1]) == 5 and all(r[1]) and ''.join(r[1]) == w and (depth > 2 or r[1][2] == lo)
             v = core.out(core.mod('isbn').validate, w)
             return None if good and v == ('ok', w) else ('consumer:isbn.split', (w, r, v))
         return None
